@@ -218,6 +218,15 @@ fn inside_group(pattern: &str, extended: bool) -> String {
     result
 }
 
+/// Verification hooks (compiled only with `--cfg uutils_findutils_verif`).
+#[cfg(uutils_findutils_verif)]
+pub mod verif {
+    /// The pattern as it is written inside the group it is wrapped in.
+    pub fn inside_group(pattern: &str, extended: bool) -> String {
+        super::inside_group(pattern, extended)
+    }
+}
+
 impl Matcher for RegexMatcher {
     fn matches(&self, file_info: &WalkEntry, _: &mut MatcherIO) -> bool {
         // Regex::is_match() panics when the engine gives up after its default
